@@ -59,10 +59,27 @@ func (p c08Prog) String() string {
 
 func c08Batch(id uint64) []Message {
 	return []Message{
-		{Id: robust.Id{Id: id, Reply: 1}, Data: fmt.Sprintf("msg %d.1", id), InterestingFor: map[uint64]bool{1: true}},
-		{Id: robust.Id{Id: id, Reply: 2}, Data: fmt.Sprintf("msg %d.2", id), InterestingFor: map[uint64]bool{2: true}},
+		{Id: robust.Id{Id: id, Reply: 1}, Data: c08Data(id, 1), InterestingFor: map[uint64]bool{1: true}},
+		{Id: robust.Id{Id: id, Reply: 2}, Data: c08Data(id, 2), InterestingFor: map[uint64]bool{2: true}},
 	}
 }
+
+var c08Long = strings.Repeat("x", 70000)
+
+// only the sequential programs use the long text (the scheduler tier runs 400k executions)
+var c08LongOn = false
+
+// c08Data is the text of message k of batch id; the first message of batch 20 (260 in the sequential programs) is longer than 64 KiB
+// ("exactly what was added" is not limited to the length of an IRC line at this interface)
+func c08Data(id uint64, k int) string {
+	s := fmt.Sprintf("msg %d.%d", id, k)
+	if c08LongOn && (id == 20 || id == 260) && k == 1 {
+		s += c08Long
+	}
+	return s
+}
+
+func c08Want(id uint64) string { return c08Data(id, 1) + "|" + c08Data(id, 2) }
 
 // ---- recorded history --------------------------------------------------------------------
 
@@ -222,8 +239,8 @@ func c08Check(p c08Prog, r *c08Run, outcome string, blocked []string, panics []i
 						ok, why = false, fmt.Sprintf("GetNext(%d) returned batch %d which is not newer", ev.X, ev.ResId)
 						continue
 					}
-					if ev.ResData != fmt.Sprintf("msg %d.1|msg %d.2", ev.ResId, ev.ResId) {
-						ok, why = false, fmt.Sprintf("GetNext(%d) returned batch %d with wrong content %q", ev.X, ev.ResId, ev.ResData)
+					if ev.ResData != c08Want(ev.ResId) {
+						ok, why = false, fmt.Sprintf("GetNext(%d) returned batch %d with wrong content (%d bytes)", ev.X, ev.ResId, len(ev.ResData))
 						continue
 					}
 					match := false
@@ -248,7 +265,7 @@ func c08Check(p c08Prog, r *c08Run, outcome string, blocked []string, panics []i
 							match = true
 						}
 					}
-					if ev.ResOK && ev.ResData != fmt.Sprintf("msg %d.1|msg %d.2", ev.Op.Id, ev.Op.Id) {
+					if ev.ResOK && ev.ResData != c08Want(ev.Op.Id) {
 						match = false
 					}
 					if !match {
@@ -496,6 +513,8 @@ func c08Programs(thorough bool) []c08Prog {
 			for _, rd := range [][]c08Op{{{Kind: "next", Id: tail}}} {
 				ps = append(ps, c08Prog{Name: "reader||delete-tail+wake||adder", Initial: init, Threads: [][]c08Op{rd, {{Kind: "del", Id: tail}, {Kind: "wake"}}, {{Kind: "add", Id: next1}}}})
 				ps = append(ps, c08Prog{Name: "reader||delete-tail+wake+add", Initial: init, Threads: [][]c08Op{rd, {{Kind: "del", Id: tail}, {Kind: "wake"}, {Kind: "add", Id: next1}}}})
+				// two readers parked behind the tail, one Add: both must be woken
+				ps = append(ps, c08Prog{Name: "reader||reader||adder", Initial: init, Threads: [][]c08Op{rd, rd, {{Kind: "add", Id: next1}}}})
 				ps = append(ps, c08Prog{Name: "reader||wake||adder", Initial: init, Threads: [][]c08Op{rd, {{Kind: "wake"}, {Kind: "wake"}}, {{Kind: "add", Id: next1}}}})
 			}
 		}
